@@ -1596,6 +1596,8 @@ void eval_instruction (const char *p) {
 
             arr = s->u.arr;
             n = arr->size;
+            if (n > 1)
+              STACK_CHECK (n - 1); /* the expanded elements must fit on the value stack */
             num_varargs += n - 1;
             if (!n)
               {
